@@ -63,6 +63,10 @@ const ITEMS: &[Item] = &[
     Item { name: "clip-url-quoted", src: r##"<rect xy="0 0" wh="50 50" clip-path="url('#dcp')"/>"##, bbox: Some((10., 10., 20., 15.)), defs: r#"<clipPath id="dcp"><rect xy="10 10" wh="10 5"/></clipPath>"# },
     Item { name: "clip-url-spaced", src: r##"<rect xy="0 0" wh="50 50" clip-path="url( #dcp )"/>"##, bbox: Some((10., 10., 20., 15.)), defs: r#"<clipPath id="dcp"><rect xy="10 10" wh="10 5"/></clipPath>"# },
     Item { name: "reuse-with-clip-attr", src: r##"<defs><clipPath id="dc10r"><rect wh="10"/></clipPath></defs><reuse href="#sq" s="100" clip-path="url(#dc10r)"/>"##, bbox: Some((0., 0., 100., 100.)), defs: r#"SPECS<rect id="sq" wh="$s"/>"# },
+    // flat elements (no width or no height) under a clip path which contains them
+    Item { name: "clipped-horizontal-line", src: r##"<line xy1="0 5" xy2="80 5" clip-path="url(#dcbig)"/>"##, bbox: Some((0., 5., 80., 5.)), defs: r#"<clipPath id="dcbig"><rect xy="-100 -100" wh="500"/></clipPath>"# },
+    Item { name: "clipped-vertical-line-in-group", src: r##"<g transform="translate(20 0)" clip-path="url(#dcbig)"><line xy1="5 0" xy2="5 40"/></g>"##, bbox: Some((25., 0., 25., 40.)), defs: r#"<clipPath id="dcbig"><rect xy="-100 -100" wh="500"/></clipPath>"# },
+    Item { name: "clipped-text", src: r##"<text xy="60 70" clip-path="url(#dcbig)">SA:clipped</text>"##, bbox: None, defs: r#"<clipPath id="dcbig"><rect xy="-100 -100" wh="500"/></clipPath>"# },
     // never-rendered containers written outside <defs>
     Item { name: "toplevel-clippath", src: r#"<clipPath id="tcp"><rect xy="900 900" wh="100"/></clipPath>"#, bbox: None, defs: "" },
     Item { name: "toplevel-mask-marker-pattern", src: r#"<marker id="tmk"><path d="M600 600 L700 700"/></marker><mask id="tms"><rect xy="-900 -900" wh="400"/></mask><pattern id="tpt" width="4" height="4"><rect xy="650 650" wh="9"/></pattern>"#, bbox: None, defs: "" },
@@ -251,7 +255,7 @@ fn check(c: &Case) -> CaseResult {
                                     }
                                     // a zero-width or zero-height extent has no aspect ratio: no value is asserted, but
                                     // whatever is written must be a number
-                                    (None, Some((v, _))) if !v.is_finite() => {
+                                    (None, Some((v, _))) if !v.is_finite() || w == 0. || h == 0. => {
                                         if let Some(a) = r.attr(k) {
                                             if a.contains("inf") || a.contains("NaN") {
                                                 mk("non-finite-dimension", format!("{doc}\n{k}=\"{a}\" in the output"));
